@@ -133,7 +133,10 @@ Held(o, p) == \/ p.wait
               \/ p.state = "DECLINED"
               \/ ~ p.handled
 Finished(o, p) == Held(o, p) \/ p.state = "MERGED"
-IntegRefs(o, p) == {r \in Refs(o) : (r.kind = "w" /\ r.src = p.src) \/
+(* w/ branches are named after the source branch: when another pull request that is NOT finished shares the  *)
+(* source branch (a backport of the same branch to an older version), they are that one's                    *)
+SharedSrc(o, p) == \E q \in UserPrs(o) : q.id # p.id /\ q.src = p.src /\ ~ (Held(o, q) \/ q.state = "MERGED")
+IntegRefs(o, p) == {r \in Refs(o) : (r.kind = "w" /\ r.src = p.src /\ ~ SharedSrc(o, p)) \/
                                      (r.kind = "qw" /\ r.pr = p.id)}
 (* b is the observation at the begin of the running job: a hold counts when it was in place when   *)
 (* the evaluation started (a hold placed by somebody while the job runs cannot be seen by it).      *)
